@@ -47,3 +47,46 @@ def name_ok(prefix, num, observed, libtable):
         return False
     # raw number: fine unless the library's table has a name for it
     return not any(v == num for k, v in libtable.items() if isinstance(v, int) and isinstance(k, str))
+
+
+# machine infixes of registry names -> e_machine codes they apply to (my own map)
+MACH = {'ARM': {40}, 'AARCH64': {183}, 'X86_64': {62}, 'AMD64': {62}, 'MIPS': {8},
+        'RISCV': {243}, 'PARISC': {15}, 'ALPHA': {0x9026, 41}, 'IA_64': {50}, 'HEX': {164},
+        'HEXAGON': {164}, 'MSP430': {105}, 'CSKY': {252}, 'PPC': {20}, 'PPC64': {21},
+        'SPARC': {2, 18, 43}, 'S390': {22}, 'NIOS2': {113}, 'ARC': {45, 93, 195}, 'HP': {15},
+        'AVR': {83}, 'XTENSA': {94}, 'SH': {42}, 'M68K': {4}, 'LOONGARCH': {258}}
+
+
+def applicable(name, prefix, machine):
+    """Is registry name `name` (prefix + ...) in the table that applies to this machine?
+    Only section, segment and dynamic-tag codes have machine-specific ranges; names of the OS
+    range (SUNW, GNU) are shown whatever EI_OSABI says and are not judged by OS."""
+    rest = name[len(prefix):]
+    if prefix not in ('SHT_', 'PT_', 'DT_'):
+        return True
+    for inf, ms in MACH.items():
+        if rest.startswith(inf + '_') or rest == inf:
+            better = [i for i in MACH if i != inf and i.startswith(inf) and rest.startswith(i + '_')]
+            if better:
+                continue
+            return machine in ms
+    return True
+
+
+def elf_name_ok(prefix, num, observed, libtables, machine):
+    """prefix with trailing underscore ('SHT_'); libtables: iterable of the library's name->value
+    dicts for this kind (all machines)."""
+    regnames = {n for n in registry_names(prefix[:-1], num) if applicable(n, prefix, machine)}
+    if isinstance(observed, str):
+        if observed in regnames:
+            return True
+        if not known(observed) and any(t.get(observed) == num for t in libtables):
+            return True
+        return False
+    if observed != num:
+        return False
+    for t in libtables:
+        for k, v in t.items():
+            if v == num and isinstance(k, str) and k.startswith(prefix) and known(k) and applicable(k, prefix, machine):
+                return False      # the library has a registry-confirmed, applicable name but reported the raw code
+    return True
